@@ -194,12 +194,13 @@ Local Arguments skipn : simpl never.
 Section Interp.
 
 Variable H : chunk -> chunk -> chunk.
+Variable Z : nat -> chunk.          (* the zero-hash table, see SszTree *)
 
 (* the loop of putK1SigList over k 65-byte signatures *)
 Fixpoint k1_chunks (k : nat) (x : list N) : option (list chunk) :=
   match k with
   | O => Some []
-  | S k' => match put_bytes H (firstn 65 x), k1_chunks k' (skipn 65 x) with
+  | S k' => match put_bytes H Z (firstn 65 x), k1_chunks k' (skipn 65 x) with
             | Some a, Some b => Some (a ++ b)
             | _, _ => None
             end
@@ -209,11 +210,11 @@ Definition opt1 (r : option chunk) : option (list chunk) :=
   match r with Some c => Some [c] | None => None end.
 
 Definition put_bytes_n (x : list N) (n : nat) : option (list chunk) :=
-  if length x <=? n then put_bytes H (left_pad x n) else None.
+  if length x <=? n then put_bytes H Z (left_pad x n) else None.
 
 Definition put_byte_list (x : list N) (max : nat) : option (list chunk) :=
   if length x <=? max
-  then opt1 (mixin H (chunks_of x) (N.of_nat (length x)) (N.div (N.of_nat max + 31) 32))
+  then opt1 (mixin H Z (chunks_of x) (N.of_nat (length x)) (N.div (N.of_nat max + 31) 32))
   else None.
 
 Definition put_k1_sig_list (x : list N) (max : nat) : option (list chunk) :=
@@ -221,13 +222,13 @@ Definition put_k1_sig_list (x : list N) (max : nat) : option (list chunk) :=
   let num := Nat.div (length x) 65 in
   if max <? num then None else
   match k1_chunks num x with
-  | Some cs => opt1 (mixin H cs (N.of_nat num) (N.of_nat max))
+  | Some cs => opt1 (mixin H Z cs (N.of_nat num) (N.of_nat max))
   | None => None
   end.
 
 Definition put_u64_array (l : list N) (max : N) : option (list chunk) :=
   let num := N.of_nat (length l) in
-  opt1 (mixin H (chunks_of (flat_map (le_bytes 8) l)) num (u64array_limit max num)).
+  opt1 (mixin H Z (chunks_of (flat_map (le_bytes 8) l)) num (u64array_limit max num)).
 
 Definition limit_of (l : lexp) (e : value) : N :=
   match l with
@@ -240,7 +241,7 @@ Fixpoint interp (p : hprog) (e : value) {struct p} : option (list chunk) :=
   | PutU64 f => Some [u64chunk (as_num (get e f))]
   | PutU64Const n => Some [u64chunk n]
   | PutBool f => Some [if as_bool (get e f) then true_chunk else zero_chunk]
-  | PutBytes b _ => match evalb b e with Some x => put_bytes H x | None => None end
+  | PutBytes b _ => match evalb b e with Some x => put_bytes H Z x | None => None end
   | PutBytesN b n => match evalb b e with Some x => put_bytes_n x n | None => None end
   | PutHex20 f => match from_0xhex (as_bytes (get e f)) 20 with Some x => put_bytes_n x 20 | None => None end
   | PutByteList b max => match evalb b e with Some x => put_byte_list x max | None => None end
@@ -248,12 +249,12 @@ Fixpoint interp (p : hprog) (e : value) {struct p} : option (list chunk) :=
   | PutU64Array f max => put_u64_array (map as_num (as_list (get e f))) max
   | Merk ps =>
     match seq_opt (fun q => interp q e) ps with
-    | Some cs => opt1 (merkleize H cs 0)
+    | Some cs => opt1 (merkleize H Z cs 0)
     | None => None
     end
   | MerkMixin f lim ps =>
     match seq_opt (fun q => interp q e) ps with
-    | Some cs => opt1 (mixin H cs (N.of_nat (length (as_list (get e f)))) (limit_of lim e))
+    | Some cs => opt1 (mixin H Z cs (N.of_nat (length (as_list (get e f)))) (limit_of lim e))
     | None => None
     end
   | ForEach f ps => seq_opt (fun v => seq_opt (fun q => interp q v) ps) (as_list (get e f))
